@@ -608,8 +608,23 @@ func (nd *Node) Restart() {
 	nd.bus.unannounce(nd)
 	nd.bus.mu.Lock()
 	nd.prov.cb = nil
+	var touching []*Proxy
+	for k, p := range nd.bus.proxies {
+		if k[0] == nd || k[1] == nd {
+			touching = append(touching, p)
+		}
+	}
 	nd.bus.mu.Unlock()
 	waitPortFree(nd.Port)
+	// a reboot leaves nothing behind: connections the old instance still accepted while it was
+	// shutting down (Hub.Shutdown does not refuse inbound requests already in flight) die with it
+	for _, p := range touching {
+		p.Cut()
+	}
+	time.Sleep(20 * time.Millisecond)
+	for _, p := range touching {
+		p.Cut()
+	}
 	nd.build()
 }
 
